@@ -413,6 +413,10 @@ def cases(tier, seed):
   add('case_pwl_fn', nk=2, units=1, mono='increasing', omit_input_params=True, imin=1.0, imax=2.0, omin=-3.0, omax=7.0, clamp_max=True)
   add('case_pwl_fn', nk=2, units=3, mono='increasing', omit_input_params=True, imin=5.0, imax=5.5, clamp_max=True, per_unit_input=True)
   add('case_pwl_fn', nk=2, units=2, mono='none', omit_input_params=True, imin=-1.0, imax=0.0, cyclic=True)
+  # cyclic together with a derived / a fixed missing output
+  add('case_pwl_fn', nk=3, units=1, mono='none', cyclic=True, missing_input=-1.0)
+  add('case_pwl_fn', nk=4, units=2, mono='none', cyclic=True, missing_input=0.0, per_unit_input=True, omin=-1.0, omax=2.0)
+  add('case_pwl_fn', nk=3, units=2, mono='none', cyclic=True, missing_input=3.0, missing_output=0.5)
   add('case_pwl_fn', nk=3, units=1, mono='none')
   # floating point: a keypoint share that underflowed to exactly 0 in softmax (zero-length piece)
   for nk_, zeros in ((3, (0, 1)), (4, (0, 1, 2))):
